@@ -1327,15 +1327,10 @@ func (l *State) deleteService(key structs.ServiceID) error {
 	switch {
 	case err == nil || strings.Contains(err.Error(), "Unknown service"):
 		delete(l.services, key)
-		// service deregister also deletes associated checks
-		for _, c := range l.checks {
-			if c.Deleted && c.Check != nil {
-				sid := c.Check.CompoundServiceID()
-				if sid.Matches(key) {
-					l.pruneCheck(c.Check.CompoundCheckID())
-				}
-			}
-		}
+		// The catalog removes the checks it holds under this service, which need not be the
+		// checks that locally belong to it (a check id can have been registered for another
+		// service). Keep the pending check deregistrations: the check loop of SyncChanges issues
+		// them in the same pass, and deregistering an absent check succeeds.
 		l.logger.Info("Deregistered service", "service", key.ID)
 		return nil
 
